@@ -400,17 +400,14 @@ pub fn add_end_violation(rep: &sim::SimReport, violations: &mut Vec<Violation>) 
         EndState::Completed => {}
         EndState::Hang(why) => {
             // the panics that preceded the hang are violations in their own right
-            for p in &rep.ctx.panics {
-                let class = format!("panic:{}:{}", file_of(&p.location), stem(&p.message));
-                if !violations.iter().any(|v| v.class == class) {
-                    violations.push(Violation { class, detail: format!("thread {} panicked at {}: {}", p.role, p.location, rt::core::truncate(&p.message, 300)) });
-                }
-            }
+            push_panic_violations(&rep.ctx.panics, violations, "before the hang");
             let op = pending();
             let opk: String = op.split(|c: char| c == ' ' || c == '(').next().unwrap_or("").to_string();
-            // panics recorded before the hang usually explain it: name the first one in the class
-            let cause = rep.ctx.panics.first().map(|p| format!("after_panic:{}:{}", file_of(&p.location), stem(&p.message))).unwrap_or_else(|| "no_panic".into());
-            violations.push(Violation { class: format!("hang:{opk}:{cause}"), detail: format!("operation never returned: {op} ({why}); blocked threads: {:?}; panics before: {:?}", blocked_summary(rep), rep.ctx.panics.iter().map(|p| format!("{} at {}: {}", p.role, p.location, rt::core::truncate(&p.message, 120))).collect::<Vec<_>>()) });
+            let class = match rep.ctx.panics.first() {
+                Some(p) => format!("hang_after_panic:{}:{}:{opk}", file_of(&p.location), stem(&p.message)),
+                None => format!("hang:{opk}:no_panic"),
+            };
+            violations.push(Violation { class, detail: format!("operation never returned: {op} ({why}); blocked threads: {:?}; panics before: {:?}", blocked_summary(rep), rep.ctx.panics.iter().map(|p| format!("{} at {}: {}", p.role, p.location, rt::core::truncate(&p.message, 120))).collect::<Vec<_>>()) });
         }
         EndState::Engine(msg) => {
             violations.push(Violation { class: format!("harness_error:{}", stem(msg)), detail: format!("engine/harness failure: {msg} (pending op: {})", pending()) });
@@ -420,4 +417,19 @@ pub fn add_end_violation(rep: &sim::SimReport, violations: &mut Vec<Violation>) 
 
 fn blocked_summary(rep: &sim::SimReport) -> Vec<String> {
     rt::core::wait_reasons().into_iter().map(|(t, r)| format!("{}:{}", rep.ctx.roles.get(&t).cloned().unwrap_or_else(|| format!("t{t}")), r)).collect()
+}
+
+/// Panics of database threads as violations `panic:<file>:<message stem>`. A panic that is only
+/// the echo of an earlier one (`PoisonError` on a lock the first panic poisoned) is not listed
+/// separately.
+pub fn push_panic_violations(panics: &[rt::core::PanicRec], violations: &mut Vec<Violation>, context: &str) {
+    for (i, p) in panics.iter().enumerate() {
+        if i > 0 && p.message.contains("PoisonError") {
+            continue;
+        }
+        let class = format!("panic:{}:{}", file_of(&p.location), stem(&p.message));
+        if !violations.iter().any(|v| v.class == class) {
+            violations.push(Violation { class, detail: format!("[{context}] thread {} panicked at {}: {}", p.role, p.location, rt::core::truncate(&p.message, 300)) });
+        }
+    }
 }
